@@ -15,7 +15,13 @@ fn main() {
         std::process::exit(2);
     }
     // panics of the code under test are data: keep stderr quiet, the message goes into the event
-    std::panic::set_hook(Box::new(|_| {}));
+    // (a non-unwinding panic - std's unsafe-precondition check - is about to abort the process: say why)
+    std::panic::set_hook(Box::new(|info| {
+        let msg = format!("{}", info);
+        if msg.contains("unsafe precondition") || msg.contains("harness:") {
+            eprintln!("{}", msg);
+        }
+    }));
     match args[1].as_str() {
         "run" => {
             let inp = BufReader::new(File::open(&args[2]).expect("cases file"));
